@@ -75,24 +75,42 @@ func (fs *FileSystemDataStore) CreateFile(ctx context.Context) (io.WriteCloser, 
 		finalPath := filepath.Join(fs.rootDir, base+".dat")
 		tempPath := filepath.Join(fs.rootDir, base+".tmp")
 
+		verifEventS("fs.reserve", 0, 0, finalPath)
 		reservation, err := os.OpenFile(finalPath, os.O_WRONLY|os.O_CREATE|os.O_EXCL, 0o600)
 		if err != nil {
 			if os.IsExist(err) {
+				verifEventS("fs.reserve", 2, 1, finalPath)
 				// Name taken by a committed or in-progress file; redraw.
 				continue
 			}
+			verifEventS("fs.reserve", 2, 0, finalPath)
 			return nil, nil, err
 		}
+		verifEventS("fs.reserve", 1, 0, finalPath)
+		verifEventS("fs.resclose", 0, 0, finalPath)
 		if err := reservation.Close(); err != nil {
+			verifEventS("fs.resclose", 2, 0, finalPath)
+			verifEventS("fs.remove", 0, 0, finalPath)
 			os.Remove(finalPath)
+			verifEventS("fs.remove", 3, 0, finalPath)
 			return nil, nil, err
 		}
+		verifEventS("fs.resclose", 1, 0, finalPath)
 
+		verifEventS("fs.tmpcreate", 0, 0, tempPath)
 		file, err := os.OpenFile(tempPath, os.O_WRONLY|os.O_CREATE|os.O_EXCL, 0o600)
 		if err != nil {
+			if os.IsExist(err) {
+				verifEventS("fs.tmpcreate", 2, 1, tempPath)
+			}
+			if !os.IsExist(err) {
+				verifEventS("fs.tmpcreate", 2, 0, tempPath)
+			}
+			verifEventS("fs.remove", 0, 0, finalPath)
 			// Release the reservation: this attempt owns no ".tmp" to ever
 			// rename over it.
 			os.Remove(finalPath)
+			verifEventS("fs.remove", 3, 0, finalPath)
 			if os.IsExist(err) {
 				// Orphaned ".tmp" from an aborted write; redraw.
 				continue
@@ -100,6 +118,7 @@ func (fs *FileSystemDataStore) CreateFile(ctx context.Context) (io.WriteCloser, 
 			return nil, nil, err
 		}
 
+		verifEventS("fs.tmpcreate", 1, 0, tempPath)
 		writer := &renameOnCloseFile{
 			file:      file,
 			tempPath:  tempPath,
@@ -133,25 +152,41 @@ type renameOnCloseFile struct {
 }
 
 func (f *renameOnCloseFile) Write(p []byte) (int, error) {
+	verifEventS("fs.write", 0, int64(len(p)), f.tempPath)
+	defer verifEventS("fs.write", 3, int64(len(p)), f.tempPath)
 	return f.file.Write(p)
 }
 
 func (f *renameOnCloseFile) Close() error {
+	verifEventS("fs.sync", 0, 0, f.tempPath)
 	if err := f.file.Sync(); err != nil {
+		verifEventS("fs.sync", 2, 0, f.tempPath)
+		verifEventS("fs.hclose", 0, 0, f.tempPath)
 		f.file.Close()
+		verifEventS("fs.hclose", 3, 0, f.tempPath)
 		return err
 	}
+	verifEventS("fs.sync", 1, 0, f.tempPath)
+	verifEventS("fs.hclose", 0, 0, f.tempPath)
 	if err := f.file.Close(); err != nil {
+		verifEventS("fs.hclose", 2, 0, f.tempPath)
 		return err
 	}
+	verifEventS("fs.hclose", 1, 0, f.tempPath)
+	verifEventS("fs.rename", 0, 0, f.tempPath)
 	if err := os.Rename(f.tempPath, f.finalPath); err != nil {
+		verifEventS("fs.rename", 2, 0, f.tempPath)
 		return err
 	}
+	verifEventS("fs.rename", 1, 0, f.tempPath)
+	verifEventS("fs.dirsync", 0, 0, f.finalPath)
 	// fsync the directory so the rename itself survives power loss: once an
 	// external metastore commits the pointer, the publish must be durable.
 	if err := syncDir(filepath.Dir(f.finalPath)); err != nil {
+		verifEventS("fs.dirsync", 2, 0, f.finalPath)
 		return err
 	}
+	verifEventS("fs.dirsync", 1, 0, f.finalPath)
 	f.published = true
 	return nil
 }
@@ -166,14 +201,22 @@ func (f *renameOnCloseFile) Abort() error {
 	}
 	// The handle may already be closed by a failed Close; that error carries
 	// no information here.
+	verifEventS("fs.hclose", 0, 1, f.tempPath)
 	f.file.Close()
+	verifEventS("fs.hclose", 3, 1, f.tempPath)
 	var errs []error
+	verifEventS("fs.remove", 0, 1, f.tempPath)
 	if err := os.Remove(f.tempPath); err != nil && !os.IsNotExist(err) {
+		verifEventS("fs.remove", 2, 1, f.tempPath)
 		errs = append(errs, err)
 	}
+	verifEventS("fs.remove", 3, 1, f.tempPath)
+	verifEventS("fs.remove", 0, 1, f.finalPath)
 	if err := os.Remove(f.finalPath); err != nil && !os.IsNotExist(err) {
+		verifEventS("fs.remove", 2, 1, f.finalPath)
 		errs = append(errs, err)
 	}
+	verifEventS("fs.remove", 3, 1, f.finalPath)
 	return errors.Join(errs...)
 }
 
@@ -199,14 +242,20 @@ func (fs *FileSystemDataStore) TombstoneFile(ctx context.Context, filePointerByt
 	finalPath := string(filePointerBytes)
 
 	var errs []error
+	verifEventS("fs.remove", 0, 2, finalPath)
 	if err := os.Remove(finalPath); err != nil && !os.IsNotExist(err) {
+		verifEventS("fs.remove", 2, 2, finalPath)
 		errs = append(errs, err)
 	}
+	verifEventS("fs.remove", 3, 2, finalPath)
 	if strings.HasSuffix(finalPath, ".dat") {
 		tempPath := strings.TrimSuffix(finalPath, ".dat") + ".tmp"
+		verifEventS("fs.remove", 0, 2, tempPath)
 		if err := os.Remove(tempPath); err != nil && !os.IsNotExist(err) {
+			verifEventS("fs.remove", 2, 2, tempPath)
 			errs = append(errs, err)
 		}
+		verifEventS("fs.remove", 3, 2, tempPath)
 	}
 	return errors.Join(errs...)
 }
@@ -232,11 +281,14 @@ func (fs *FileSystemDataStore) readFileMetadata(filePath string) (*FileMetadata,
 // memory per yield rather than the whole directory's.
 func (fs *FileSystemDataStore) GetMaybeFilesForQuery(ctx context.Context, query *QueryPrefilter) iter.Seq2[MaybeFile, error] {
 	return func(yield func(MaybeFile, error) bool) {
+		verifPause("fs.scan.begin", 0)
 		files, err := os.ReadDir(fs.rootDir)
 		if err != nil {
 			yield(MaybeFile{}, err)
 			return
 		}
+		verifEventS("fs.scan.listed", int64(len(files)), 0, fs.rootDir)
+		verifPause("fs.scan.listed", int64(len(files)))
 
 		for _, file := range files {
 			// Honor ctx on every entry, not just at yields: the skip paths
@@ -253,6 +305,8 @@ func (fs *FileSystemDataStore) GetMaybeFilesForQuery(ctx context.Context, query 
 			}
 
 			filePath := filepath.Join(fs.rootDir, file.Name())
+			verifPause("fs.scan.file", 0)
+			verifEventS("fs.scan.file", 0, 0, filePath)
 
 			// Read file metadata from bloom file. Unreadable or invalid files
 			// (partial writes, foreign files dropped in the directory) are
@@ -282,7 +336,9 @@ func (fs *FileSystemDataStore) GetMaybeFilesForQuery(ctx context.Context, query 
 func (fs *FileSystemDataStore) Update(ctx context.Context, writes []WriteOperation, deletes []DeleteOperation) error {
 	// writes are no-op, it's stored in the files
 	for _, delete := range deletes {
+		verifEventS("fs.remove", 0, 3, string(delete.FilePointerBytes))
 		os.Remove(string(delete.FilePointerBytes))
+		verifEventS("fs.remove", 3, 3, string(delete.FilePointerBytes))
 	}
 	return nil
 }
